@@ -53,7 +53,7 @@ PROPS = {
                        "SVD::solve/min_subset_x): no integer variable or API slot receives two different index spaces. R-MPT: CFG "
                        "dominance/post-dominance: the homogenisation step and all of AdjInputData precede every solver reset in "
                        "LocalNetwork::project_equations, min_x(n, list) follows every reset on every path, the ordering is computed before "
-                       "the envelope is laid out and factorised before it is solved. Optimality and the arithmetic of the factorisations "
+                       "the envelope is laid out and factorised before it is solved. R-LAZY PRESERVE: reset() of every solver leaves the regularisation subset untouched (it may be set before or after reset). Optimality and the arithmetic of the factorisations "
                        "are not decided.",
     },
     "C02": {
@@ -61,13 +61,14 @@ PROPS = {
                   tab.rule_algorithms, tab.rule_who_depends, lazy.rule_lazy_rethrow, lazy.rule_lazy_preserve],
         "explanation": "R-SIB: the four AdjBase implementations implement every pure virtual of the interface; R-ERR: each solver's "
                        "solve path reaches a throw of Exception::BadRegularization and the ICGS error counter is consumed; R-LAZY L1/L2 "
-                       "for every query of every solver (same typestate obligations for the four siblings). Numerical agreement of the "
+                       "for every query of every solver (same typestate obligations for the four siblings). R-ERR rethrow: queries made inside null_space()'s handler (lindep, defect) cannot throw BadRegularization again from any flag state in which a solver throws it; R-LAZY PRESERVE; R-TAB T1/T4 algorithm names and who-may-depend. Numerical agreement of the "
                        "four algorithms is not decided.",
     },
     "C03": {
         "rules": [idx.rule_idx_c03, lazy.rule_lazy_caches],
         "explanation": "R-IDX restricted to the cofactor queries and their helpers (q_xx, q0_xx, q_bb, q_bx, T_row, T, dot) of the four "
                        "solvers and Adj::q_bb, plus the cache rule: every MoveToFront cache object is looked up with keys of one index space. "
+                       "R-LAZY CACHE: every method that writes an input the cache content depends on erases the cache index on every path. "
                        "The algebraic identities of the generalised inverse are not decided.",
     },
     "C10": {
@@ -83,7 +84,8 @@ PROPS = {
         "explanation": "R-PAIR P1: every set_unused_xy/z in LocalNetwork is post-dominated by removed(id, code) with a reason code of the "
                        "same axis class; partition: revision_observations puts every observation on exactly one of the used / removed "
                        "lists, cleared first, and counts the used list; R-MPT: remove_huge_abs_terms re-triggers the revision after "
-                       "deactivating observations. Equality of results with the reduced input is not decided.",
+                       "deactivating observations; removed(id, code) restarts the whole pipeline (update cascade); reason tables and cluster casts agree (R-TAB/R-VIS). "
+                       "Equality of results with the reduced input is not decided.",
     },
     "C16": {
         "rules": [idx.rule_idx_c16, mpt.rule_mpt_c16],
@@ -97,7 +99,7 @@ PROPS = {
         "explanation": "R-IDX on the four lindep implementations (the index handed to the factor / permutation / singular-value "
                        "store is in the space that store expects); R-ERR: every solver can signal an unresolvable regularisation and "
                        "LocalNetwork::null_space() handles exactly Exception::BadRegularization, rethrows everything else, and removes "
-                       "the flagged unknown's point with a reason. That the flagged set has a full-rank complement is not decided.",
+                       "the flagged unknown's point with a reason. removed() restarts the pipeline (CASCADE) and the handler's queries cannot rethrow (R-ERR rethrow). That the flagged set has a full-rank complement is not decided.",
     },
     "C05": {
         "rules": [lin.rule_bnd, lin.rule_lin, lin.rule_wrap_w1, lin.rule_unit, lin.rule_vis_local, sib.rule_index_alloc_order, sib.rule_rhs_every_path],
@@ -107,14 +109,14 @@ PROPS = {
                        "per axis (translation invariance); R-WRAP W1 angular right-hand sides that are differences of directions are "
                        "reduced to the half circle; R-UNIT the mm/cc scale constants of rhs, coefficients and of the sibling visitors "
                        "that combine residuals with observed values agree; R-VIS every local visitor derives from AllObservationsVisitor "
-                       "and LocalLinearization handles every observation class. That each coefficient equals the partial derivative is not decided.",
+                       "and LocalLinearization handles every observation class. Every handler assigns rhs on every normal path and allocates index_x before index_y (the consumer assumes adjacency). That each coefficient equals the partial derivative is not decided.",
     },
     "C07": {
         "rules": [esc.rule_ysign, mpt.rule_mpt_c07, sib.rule_index_alloc_order],
         "explanation": "The mirroring clause only. R-YSIGN: in every writer scope a y-carrying value (LocalPoint::y/y_0, value() of Y/Ydiff, "
                        "solution elements indexed by index_y()) reaches an output sink only after multiplication by the y sign, and sibling "
                        "visit(Y*)/visit(Ydiff*) agree; R-MPT: remove_inconsistency() dominates the approximate-coordinate computation in main. "
-                       "The other equivalences (translation, rotation of the circle, permutation, renaming, units) relate different runs and are not decided.",
+                       "R-SIB: every handler allocates the x index of a point before its y index, so results do not depend on which observation touches a point first. The other equivalences (translation, rotation of the circle, permutation, renaming, units) relate different runs and are not decided.",
     },
     "C12": {
         "rules": [esc.rule_esc_adjxml, esc.rule_str2xml, fsm2.rule_xsd_adjxml, esc.rule_ysign, lin.rule_unit, dead.rule_dead_local],
@@ -122,7 +124,7 @@ PROPS = {
                        "description, extern value or exception message reaches a markup sink of LocalNetworkXML, its observation visitor, "
                        "XMLerror, the HTML and SVG writers unsanitised; the sanitiser str2xml maps < > & \" ' to the right entities; the "
                        "element vocabulary of writer, reader (LocalNetworkAdjustmentResults::Parser::tag) and gama-local-adjustment.xsd "
-                       "agree; R-YSIGN and R-UNIT for the writer. Numeric round trip and cross-format equality are not decided.",
+                       "agree; R-YSIGN and R-UNIT for the writer. R-DEAD: no branch of an if/else-if chain over point-status predicates is dead (constrained implies free in the encoding). Numeric round trip and cross-format equality are not decided.",
     },
     "C13": {
         "rules": [attr.rule_attr_flow, attr.rule_attr_export, esc.rule_esc_export, esc.rule_ysign, tab.rule_cluster_casts,
@@ -131,7 +133,7 @@ PROPS = {
                        "the model (A2); attributes written by export_xml are accepted by the corresponding handler and the schema, and every "
                        "stored attribute is written back (A4). R-ESC for export_xml/DisplayObservationVisitor, R-YSIGN, and export covers all "
                        "cluster kinds; R-UNIT: the exported standard deviation is scaled for exactly the angular observation types. "
-                       "That re-adjustment of the exported file needs no iteration is not decided.",
+                       "R-DEAD: status chains (fixed / constrained / free) have no dead branch. That re-adjustment of the exported file needs no iteration is not decided.",
     },
     "C15": {
         "rules": [dim.rule_dim, pair.rule_memrep],
@@ -150,7 +152,7 @@ PROPS = {
                   esc.rule_esc_g3, pair.rule_newdelete, dead.rule_dead_g3],
         "explanation": "R-VIS V2 every g3 visitor covers all concrete g3 observation classes; R-LAZY stage chain of g3::Model and "
                        "typestate of Adj; R-TAB T1 algorithm names; R-FSM DataParser automaton (no silent error, absorbing error state, "
-                       "depth discipline, init() role table verified against its body); R-ESC g3 writers; R-PAIR P2. Adjusted "
+                       "depth discipline, init() role table verified against its body); R-ESC g3 writers; R-PAIR P2. R-DEAD for the parameter-status chains of g3. Adjusted "
                        "coordinates are not decided.",
     },
     "C04": {
@@ -163,7 +165,7 @@ PROPS = {
                        "the dependent results invalidated on every normal exit, plus inductiveness of the flag invariant. "
                        "For LocalNetwork and g3::Model the invalidation cascade (update(stage) resets that and all later flags) and the stage chain "
                        "(every stage function runs the previous stage when it is not established and marks its own stage done; consumers run "
-                       "their stage first) are decided. The roles (flag -> fields) are frozen in sa/tables/lazy.json. History independence of the numbers "
+                       "their stage first) are decided. CACHE (cache indexes erased when their inputs change), PRESERVE (reset keeps the regularisation subset), R-PAIR P2 (no dangling owner after delete) and L3 (no field shadowed where its role is needed) are decided too. The roles (flag -> fields) are frozen in sa/tables/lazy.json. History independence of the numbers "
                        "themselves is not decided - only that no query can observe a stale or not-yet-computed field.",
     },
     "C11": {
